@@ -259,7 +259,10 @@ CHECKS = {
              'start-up, idempotence of an immediate second start-up, '
              'immutability of standard rows under every request, well-formed '
              'names and ids >= 10000 for every row an API request adds, '
-             '204/409 and no duplicates for existing names. Bounded random '
+             '204/409 and no duplicates for existing names; second phase: '
+             '2-3 concurrent creations of one new name scheduled at '
+             'transaction granularity (exactly one 201, others 204/409, one '
+             'row). Bounded random '
              'exploration.',
         note='start-up = deploy.update_database() with the per-process flags '
              'reset; partial databases made with raw SQL; SQLite'),
@@ -337,7 +340,7 @@ def main():
              'kind_free_text': 'Hypothesis-generated states and structured '
                                'queries; brute-force reference pv/acref.py'},
             {'name': 'txn-scheduler', 'path': 'pv/sched.py',
-             'serves_properties': ['C05', 'C06', 'C07'],
+             'serves_properties': ['C05', 'C06', 'C07', 'C10', 'C19'],
              'kind_free_text': 'baton scheduler over real request threads; '
                                'scheduling points = pool checkin with no '
                                'connection checked out'},
